@@ -270,3 +270,29 @@ func TestZZFixedD36FailedCommitGivesBack(t *testing.T) {
 		t.Fatalf("failed WRITE (status %d) consumed %d blocks of the in-memory allocator", r.Status, before-after)
 	}
 }
+
+// D-18: the write verifier was never set: WRITE and COMMIT replied with eight
+// zero bytes in every server instance, so a client could not notice a restart.
+func TestZZFixedD18WriteVerifier(t *testing.T) {
+	c := MkNfsClient(100 * 1000)
+	root := fh.MkRootFh3()
+	f := c.CreateOp(root, "f").Resok.Obj.Handle
+	w := c.WriteOp(f, 0, []byte("data"), nfstypes.UNSTABLE)
+	cm := c.CommitOp(f, 4)
+	if w.Status != 0 || cm.Status != 0 {
+		t.Fatalf("write %d commit %d", w.Status, cm.Status)
+	}
+	if w.Resok.Verf != cm.Resok.Verf {
+		t.Fatalf("WRITE and COMMIT of one instance disagree on the verifier")
+	}
+	v1 := w.Resok.Verf
+	c.Shutdown()
+	time.Sleep(2 * time.Millisecond)
+	c2 := MkNfsClient(100 * 1000)
+	defer c2.Shutdown()
+	f2 := c2.CreateOp(root, "f").Resok.Obj.Handle
+	w2 := c2.WriteOp(f2, 0, []byte("data"), nfstypes.UNSTABLE)
+	if w2.Resok.Verf == v1 {
+		t.Fatalf("two server instances use the same write verifier %v", v1)
+	}
+}
